@@ -237,7 +237,7 @@ func c08MutationLabel(in ssa.Instruction) string {
 // on any path that starts after M, because every assignment of the flag that
 // can reach the test after M is the same constant (the `untagged := false;
 // … untagged = true` idiom).
-func c08InfeasibleAfter(M ssa.Instruction) []Edge {
+func c08InfeasibleAfter(M ssa.Instruction, r *c08Roles) []Edge {
 	fn := M.Parent()
 	var out []Edge
 	// M runs inside `for … := range S`: S is not empty afterwards
@@ -246,53 +246,116 @@ func c08InfeasibleAfter(M ssa.Instruction) []Edge {
 			out = append(out, c08LenZeroEdges(fn, ranged)...)
 		}
 	}
-	after := func(to ssa.Instruction) bool { return reach(M.Block(), instrIndex(M)+1, to, nil) }
 	for _, i := range Ifs(fn) {
 		cond, t, f := ifEdges(i)
-		if cst, isConst := cond.(*ssa.Const); isConst && cst.Value != nil {
-			if cst.Value.String() == "true" {
+		if val, known := c08BoolKnownAfter(M, cond, i); known {
+			if val {
 				out = append(out, f)
 			} else {
 				out = append(out, t)
 			}
-			continue
 		}
-		phi, ok := cond.(*ssa.Phi)
-		if !ok {
-			continue
-		}
-		// the flag is (re)evaluated on every path from M to the test
-		if reach(M.Block(), instrIndex(M)+1, i, newCut().Instr(phi)) {
-			continue
-		}
-		vals := map[bool]bool{}
-		known := true
-		for k, p := range phi.Block().Preds {
-			term := p.Instrs[len(p.Instrs)-1]
-			if !(p == M.Block() || after(term)) {
-				continue // this edge cannot be taken after M
+	}
+	// M is a call of a helper that reports, in a bool result, whether it changed the
+	// tag map (`untagged := s.untagAll(target)`): relative to "a change happened at
+	// M" the result is true, so the edges on which it is false are infeasible
+	if call, ok := M.(*ssa.Call); ok && r != nil {
+		if g := StaticCallee(call); g != nil && len(g.Blocks) > 0 && fnPkgPath(g) == fnPkgPath(fn) {
+			res := g.Signature.Results()
+			for idx := 0; idx < res.Len(); idx++ {
+				if !types.Identical(res.At(idx).Type(), types.Typ[types.Bool]) || !c08ChangeImpliesTrue(g, idx, r) {
+					continue
+				}
+				if v := ResultOf(call, idx); v != nil {
+					_, fe := BoolTests(fn, Aliases(v))
+					out = append(out, fe...)
+				}
 			}
-			e := phi.Edges[k]
-			if e == ssa.Value(phi) {
-				continue
-			}
-			cst, isConst := e.(*ssa.Const)
-			if !isConst || cst.Value == nil {
-				known = false
-				break
-			}
-			vals[cst.Value.String() == "true"] = true
-		}
-		if !known || len(vals) != 1 {
-			continue
-		}
-		if vals[true] {
-			out = append(out, f)
-		} else {
-			out = append(out, t)
 		}
 	}
 	return out
+}
+
+// c08BoolKnownAfter: the boolean v, used at `use`, has one known constant value
+// on every path that starts just after M: v is a constant, or a phi that is
+// re-evaluated on every path from M to the use and all of whose incoming edges
+// that can be taken after M carry the same constant.
+func c08BoolKnownAfter(M ssa.Instruction, v ssa.Value, use ssa.Instruction) (val, known bool) {
+	if cst, isConst := v.(*ssa.Const); isConst && cst.Value != nil {
+		return cst.Value.String() == "true", true
+	}
+	phi, ok := v.(*ssa.Phi)
+	if !ok {
+		return false, false
+	}
+	if reach(M.Block(), instrIndex(M)+1, use, newCut().Instr(phi)) {
+		return false, false
+	}
+	after := func(to ssa.Instruction) bool { return reach(M.Block(), instrIndex(M)+1, to, nil) }
+	vals := map[bool]bool{}
+	for k, p := range phi.Block().Preds {
+		term := p.Instrs[len(p.Instrs)-1]
+		if !(p == M.Block() || after(term)) {
+			continue // this edge cannot be taken after M
+		}
+		e := phi.Edges[k]
+		if e == ssa.Value(phi) {
+			continue
+		}
+		cst, isConst := e.(*ssa.Const)
+		if !isConst || cst.Value == nil {
+			return false, false
+		}
+		vals[cst.Value.String() == "true"] = true
+	}
+	if len(vals) != 1 {
+		return false, false
+	}
+	return vals[true], true
+}
+
+// c08ChangeImpliesTrue: whenever g changes the tag map, its bool result idx is
+// true: from every mutation in g, every reachable Return carries a value known
+// to be true after that mutation.
+func c08ChangeImpliesTrue(g *ssa.Function, idx int, r *c08Roles) bool {
+	muts := c08Mutations(g, r)
+	if len(muts) == 0 {
+		return false
+	}
+	for _, M := range muts {
+		for _, ret := range Returns(g) {
+			if !reach(M.Block(), instrIndex(M)+1, ret, nil) {
+				continue
+			}
+			v := ret.Results[idx]
+			// named result kept in a cell (deferred closures): resolve through the reaching stores
+			if a := cellOf(v); a != nil {
+				var trueStores, otherStores []ssa.Instruction
+				for _, st := range storesTo(a) {
+					if cst, isConst := st.Val.(*ssa.Const); isConst && cst.Value != nil && cst.Value.String() == "true" {
+						trueStores = append(trueStores, st)
+					} else {
+						otherStores = append(otherStores, st)
+					}
+				}
+				if len(trueStores) == 0 || len(closureWriters(a)) > 0 || !MustPassBetween(M, ret, newCut().Instr(trueStores...)) {
+					return false
+				}
+				for _, ts := range trueStores {
+					for _, os := range otherStores {
+						if Reachable(ts, os) {
+							return false
+						}
+					}
+				}
+				continue
+			}
+			if val, known := c08BoolKnownAfter(M, v, ret); !(known && val) {
+				return false
+			}
+		}
+	}
+	return true
 }
 
 // c08NilReturnAfter: a Return reachable from just after M without hitting the
@@ -369,7 +432,7 @@ func c08Unsaved(f *ssa.Function, r *c08Roles) (ssa.Instruction, *ssa.Return) {
 	saves := c08SaveCalls(f, r)
 	for _, M := range c08Mutations(f, r) {
 		M := M
-		mkCut := func() *cut { return newCut().Calls(saves).Edges(off...).Edges(c08InfeasibleAfter(M)...) }
+		mkCut := func() *cut { return newCut().Calls(saves).Edges(off...).Edges(c08InfeasibleAfter(M, r)...) }
 		if ret := c08NilReturnAfter(M, mkCut()); ret != nil {
 			// a save that runs under a condition the rule does not understand is
 			// reported at the function itself (Undecided), not pushed to callers
@@ -408,7 +471,7 @@ func c08BlamedGuards(f *ssa.Function, r *c08Roles, M ssa.Instruction, mkCut func
 	saves := c08SaveCalls(f, r)
 	auto := c08StoreFieldLoads(f, r.store, "AutoSaveIndex")
 	infeasible := map[Edge]bool{}
-	for _, e := range c08InfeasibleAfter(M) {
+	for _, e := range c08InfeasibleAfter(M, r) {
 		infeasible[e] = true
 	}
 	after := func(to ssa.Instruction, ct *cut) bool { return reach(M.Block(), instrIndex(M)+1, to, ct) }
@@ -542,7 +605,18 @@ func c08PersistPromises(p *Prog, r *c08Roles) (out []c08Promise, lost []string) 
 		pr.Bad = c08NilReturnFrom(f.Blocks[0], 0, ct)
 		out = append(out, pr)
 	}
+	push := p.Fn(c08Pkg, "Store.Push")
+	notManifest := func(f *ssa.Function) func(ct *cut) {
+		return func(ct *cut) {
+			_, nm, _ := CallTests(f, "~/internal/descriptor.IsManifest", nil)
+			ct.Edges(nm...)
+		}
+	}
 	for f := range helpers {
+		if f == push { // the tag helper inlined into Push: only manifests are tagged
+			eval(f, "manifest-success-implies-index-saved", notManifest(f))
+			continue
+		}
 		eval(f, "success-implies-index-saved", nil)
 	}
 	viaHelpers := func(f *ssa.Function) func(ct *cut) {
@@ -558,13 +632,12 @@ func c08PersistPromises(p *Prog, r *c08Roles) (out []c08Promise, lost []string) 
 	} else if !helpers[f] {
 		eval(f, "success-implies-index-saved", viaHelpers(f))
 	}
-	if f := p.Fn(c08Pkg, "Store.Push"); f == nil {
+	if f := push; f == nil {
 		lost = append(lost, "~/content/oci.Store.Push")
 	} else if !helpers[f] {
 		eval(f, "manifest-success-implies-index-saved", func(ct *cut) {
 			c08SuccessCut(f, helpers, ct)
-			_, notManifest, _ := CallTests(f, "~/internal/descriptor.IsManifest", nil)
-			ct.Edges(notManifest...)
+			notManifest(f)(ct)
 		})
 	}
 	return
